@@ -31,9 +31,9 @@ var sgW = ssnode.WorkerGroups
 type Case struct {
 	Min, Max, Warm int
 	ErrKill        int
-	ForkFailEvery  int   // every n-th fork fails (0 = never)
-	ForkDelayMs    int   // how long TestFork takes
-	SlowForks      bool  // forks outlast a normalizing round (ConnTimeout + PoolPause)
+	ForkFailEvery  int      // every n-th fork fails (0 = never)
+	ForkDelayMs    int      // how long TestFork takes
+	SlowForks      bool     // forks outlast a normalizing round (ConnTimeout + PoolPause)
 	Actions        []string // err:<k> kill:<k> check heartbeat wait:<ms> gone:<k>
 	Seed           int64
 	Tag            string
@@ -98,21 +98,22 @@ type Fail struct {
 
 type tracer struct {
 	*am.TracerNoOp
-	mu       sync.Mutex
-	s        *node.Supervisor
-	c        Case
-	run      *Run
-	ids      map[string]int
-	prActive bool
-	errSeen  map[string]int
-	killReq  map[string]bool
-	inflightSet map[string]bool // boot addresses of forks past the gate whose SetWorker has not run yet
-	overlap  bool // a fork passed the gate with tracked + in-flight already at Max
+	mu                  sync.Mutex
+	s                   *node.Supervisor
+	c                   Case
+	run                 *Run
+	ids                 map[string]int
+	prActive            bool
+	errSeen             map[string]int
+	errCount            map[string]int // error count last seen per worker
+	killReq             map[string]bool
+	inflightSet         map[string]bool // boot addresses of forks past the gate whose SetWorker has not run yet
+	overlap             bool            // a fork passed the gate with tracked + in-flight already at Max
 	lastTracked, lastPR int
-	roundOpen    bool // inside the fork loop of a normalizing round
-	roundTracked int  // tracked workers when the round listed them
-	roundAsked   int  // forks the round has asked for so far
-	roundOverlap bool // a round started while forks of an earlier one were still in flight
+	roundOpen           bool // inside the fork loop of a normalizing round
+	roundTracked        int  // tracked workers when the round listed them
+	roundAsked          int  // forks the round has asked for so far
+	roundOverlap        bool // a round started while forks of an earlier one were still in flight
 }
 
 func (t *tracer) id(addr string) int {
@@ -271,6 +272,13 @@ func (t *tracer) TransitionEnd(tx *am.Transition) {
 		ex := am.ParseArgs[am.AException](mut.Args)
 		if args != nil && args.LocalAddr != "" && !errors.Is(ex.Err, node.ErrWorkerKill) {
 			n, tracked := snap.Errs[args.LocalAddr]
+			// ErrWorker is not a Multi state: an error reported while the previous one is still being
+			// handled (the state is still active) runs no handler and is not counted - nothing for
+			// the model to replay
+			if tracked && n == t.errCount[args.LocalAddr] {
+				break
+			}
+			t.errCount[args.LocalAddr] = n
 			o := "ok"
 			if tracked && n > s.WorkerErrKill {
 				o = fmt.Sprintf("kill:%d", t.id(args.LocalAddr))
@@ -322,7 +330,7 @@ func Exec(c Case) *Run {
 	if c.ErrKill > 0 {
 		s.WorkerErrKill = c.ErrKill
 	}
-	tr := &tracer{TracerNoOp: &am.TracerNoOp{Id: "verif"}, s: s, c: c, run: run, ids: map[string]int{}, errSeen: map[string]int{}, killReq: map[string]bool{}, inflightSet: map[string]bool{}}
+	tr := &tracer{TracerNoOp: &am.TracerNoOp{Id: "verif"}, s: s, c: c, run: run, ids: map[string]int{}, errSeen: map[string]int{}, errCount: map[string]int{}, killReq: map[string]bool{}, inflightSet: map[string]bool{}}
 	s.Mach.BindTracer(tr)
 	ws := &workerSet{workers: map[string]*node.Worker{}}
 	var forks atomic.Int32
